@@ -12,6 +12,7 @@ import (
 	"saoverif/internal/cfgx"
 	"saoverif/internal/core"
 	"saoverif/internal/guard"
+	"saoverif/internal/term"
 )
 
 // ---------------------------------------------------------------- a small interprocedural typestate walk
@@ -371,6 +372,7 @@ func outcomeBranch(cond ssa.Value, call ssa.Value, kind string, si int) (follow,
 		}
 		break
 	}
+	cond = term.StoredValue(cond)
 	if cond == call {
 		// the boolean result itself
 		isTrue := kind == "c:true"
@@ -385,7 +387,7 @@ func outcomeBranch(cond ssa.Value, call ssa.Value, kind string, si int) (follow,
 		x, y = y, x
 	}
 	k, isC := y.(*ssa.Const)
-	if !isC || k.Value == nil || x != call {
+	if !isC || k.Value == nil || term.StoredValue(x) != call {
 		return true, false
 	}
 	eq := kind == "c:"+k.Value.ExactString()
@@ -422,6 +424,7 @@ func errTestOf(cond ssa.Value) (ssa.Value, int) {
 	if !isErrorType(x.Type()) {
 		return nil, -1
 	}
+	x = term.StoredValue(x)
 	var call ssa.Value
 	switch v := x.(type) {
 	case *ssa.Call:
